@@ -174,6 +174,15 @@ fn check_value(v: i128, label: &str, acc: &mut Acc) {
     route!(acc, "json_server", v, label, true, sl(conjure_serde::json::server_from_str::<SafeLong>(&text)));
     route!(acc, "json_client_slice", v, label, true, sl(conjure_serde::json::client_from_slice::<SafeLong>(text.as_bytes())));
     route!(acc, "json_server_reader", v, label, true, sl(conjure_serde::json::server_from_reader::<_, SafeLong>(text.as_bytes())));
+    {
+        // readers that hand the text over in pieces (a prefix of a number is a number)
+        use std::io::Read;
+        let bytes = text.as_bytes();
+        let mid = bytes.len() / 2;
+        route!(acc, "json_client_reader_two_pieces", v, label, true, sl(conjure_serde::json::client_from_reader::<_, SafeLong>((&bytes[..mid]).chain(&bytes[mid..]))));
+        route!(acc, "json_server_reader_two_pieces", v, label, true, sl(conjure_serde::json::server_from_reader::<_, SafeLong>((&bytes[..mid]).chain(&bytes[mid..]))));
+        route!(acc, "json_client_reader_byte_by_byte", v, label, true, sl(conjure_serde::json::client_from_reader::<_, SafeLong>(OneByte(bytes))));
+    }
     let keydoc = format!("{{\"{}\":1}}", text);
     route!(acc, "json_map_key_client", v, label, true,
         conjure_serde::json::client_from_str::<BTreeMap<SafeLong, i32>>(&keydoc).ok().and_then(|m| m.keys().next().map(|k| **k)));
@@ -227,6 +236,20 @@ fn centres() -> Vec<(i128, String)> {
         p = p.saturating_mul(10);
     }
     out
+}
+
+/// a reader that returns one byte per call
+struct OneByte<'a>(&'a [u8]);
+
+impl std::io::Read for OneByte<'_> {
+    fn read(&mut self, buf: &mut [u8]) -> std::io::Result<usize> {
+        if self.0.is_empty() || buf.is_empty() {
+            return Ok(0);
+        }
+        buf[0] = self.0[0];
+        self.0 = &self.0[1..];
+        Ok(1)
+    }
 }
 
 pub fn run(args: &Args) -> Report {
